@@ -21,7 +21,7 @@ RULE = ("BFS to depth d over events {write one of 3 values to a mapped variable 
         "callback count and every variable value are compared with the reference. Waits: waiter x receiver (0..2 frames) "
         "with <= P preemptions; a reader of two bit-field variables x receiver (1..2 frames) at line + after-call granularity. "
         "states de-duplicated on (map data, configuration, subscriptions, callbacks); non-trivial = "
-        "states reached by >= 2 events, schedules with a preemption")
+        "states reached by >= 2 events, schedules with a preemption; two application threads writing two variables of one producing map that share no byte (4 layouts, line granularity): both values in the frame afterwards")
 ASSUMPTIONS = [
     "a consumer map counts as subscribed to an id once subscribe() was called while it had that COB-ID; frames only update it while its current COB-ID equals the frame id",
     "waits: time-outs are long compared with scheduling delays",
